@@ -21,6 +21,7 @@ SeqSet(s) == {s[i] : i \in 1..Len(s)}
 SrvVars(s) == IF s.abs THEN {[n |-> p.v, d |-> p.d] : p \in {q \in SeqSet(s.host) \cup SeqSet(s.port) : IsVar(q)}} ELSE {}
 Realised(line) ==
    /\ "rdoc" \in DOMAIN line /\ "ru" \in DOMAIN line /\ "rm" \in DOMAIN line
+   /\ "gh" \in DOMAIN line /\ "lh" \in DOMAIN line /\ Len(line.gh) = Len(line.reqs) /\ Len(line.lh) = Len(line.reqs)
    /\ Len(line.rdoc.servers) = Len(line.doc.servers)
    /\ \A i \in 1..Len(line.doc.servers) :
          /\ line.rdoc.servers[i].url = ServerURL(line.doc.servers[i])
@@ -50,6 +51,20 @@ JudgeObs(line, i, router) ==
                                           obs |-> obs, model |-> Pred(line.doc, line.reqs[i], router)])>>,
                        "fidelity.ndjson")
 
+(* the route objects returned during the case, read again after its last request; a       *)
+(* rejected one is reported with the whole request sequence (the history that led to it) *)
+HeldKey(router) == IF router = "g" THEN "gh" ELSE "lh"
+JudgeHeld(line, i, router) ==
+   LET obs == line[router][i]
+       held == line[HeldKey(router)][i]
+       failed == HeldFailed(line.doc, line.reqs[i], obs, held)
+   IN failed = {}
+      \/ (obs.k = "route" /\ FailedFor(router, line.doc, line.reqs[i], obs) # {} /\ "held_route_changed" \notin failed
+          /\ "held_route_lost" \notin failed)      \* already reported at return time, and unchanged since
+      \/ CSVWrite("%1$s", <<ToJson([case |-> line.case, doc |-> line.doc, req |-> line.reqs[i], reqs |-> line.reqs,
+                                     router |-> router, obs |-> obs, held |-> held, failed |-> failed,
+                                     class |-> "none"])>>, "violations.ndjson")
+
 Broken(line, what) ==
    CSVWrite("%1$s", <<ToJson([case |-> line.case, doc |-> line.doc, failed |-> {what}, got |-> line.load,
                                class |-> "none"])>>, "violations.ndjson")
@@ -57,7 +72,8 @@ Broken(line, what) ==
 LineOK(line) ==
    IF line.load # "ok" THEN Broken(line, "document_does_not_load_or_routers_not_built")
    ELSE IF ~Realised(line) THEN Broken(line, "harness_realiser")
-   ELSE \A i \in 1..Len(line.reqs) : JudgeObs(line, i, "g") /\ JudgeObs(line, i, "l")
+   ELSE \A i \in 1..Len(line.reqs) : /\ JudgeObs(line, i, "g") /\ JudgeObs(line, i, "l")
+                                      /\ JudgeHeld(line, i, "g") /\ JudgeHeld(line, i, "l")
 
 Judge == l > 0 => LineOK(Trace[l])
 
